@@ -49,6 +49,10 @@ pub struct ConcCase {
     /// pile of level-0 files (level-0 slowdown/stop triggers while the first compaction runs)
     #[serde(default)]
     pub preload: u16,
+    /// bit ((5 * thread + op index) % 32) set: that write is issued with WriteOptions::synchronous
+    /// (a synchronous writer must not be merged into a non-synchronous leader's group commit)
+    #[serde(default)]
+    pub sync_mask: u32,
 }
 
 #[derive(Clone, Debug, Default)]
@@ -113,6 +117,7 @@ fn execute(case: &ConcCase, check_lin: bool) -> Result<(Vec<Rec>, ConcStats), St
     sched::install(st.clone());
     let barrier = Arc::new(Barrier::new(n));
     let mut handles = vec![];
+    let sync_mask = case.sync_mask;
     for (ti, prog) in case.programs.iter().enumerate() {
         let (db, clock, recs, errors, st, barrier, prog) =
             (db.clone(), clock.clone(), recs.clone(), errors.clone(), st.clone(), barrier.clone(), prog.clone());
@@ -123,11 +128,13 @@ fn execute(case: &ConcCase, check_lin: bool) -> Result<(Vec<Rec>, ConcStats), St
                     sched::set_role(ti as i32);
                     barrier.wait();
                     let mut sub = 0u64;
+                    let sync_mask = sync_mask;
                     for (oi, op) in prog.iter().enumerate() {
                         let mut idgen = || {
                             sub += 1;
                             (ti as u64 + 1) * 1_000_000 + oi as u64 * 100 + sub
                         };
+                        let wo = WriteOptions { synchronous: (sync_mask >> ((5 * ti + oi) % 32)) & 1 == 1 };
                         let ev0 = events();
                         let inv = clock.fetch_add(1, Ordering::SeqCst);
                         let mut effects: Vec<(u8, KKind)> = vec![];
@@ -137,7 +144,7 @@ fn execute(case: &ConcCase, check_lin: bool) -> Result<(Vec<Rec>, ConcStats), St
                                 let k = *k % nk as u8;
                                 let id = idgen();
                                 let v = make_value(id, Val { len: 8 + *len as u32, compressible: false });
-                                match db.put(WriteOptions::default(), KEYS[k as usize].to_vec(), v) {
+                                match db.put(wo, KEYS[k as usize].to_vec(), v) {
                                     Ok(()) => effects.push((k, KKind::Write { val: Some(id), maybe: false })),
                                     Err(_) if faulty => effects.push((k, KKind::Write { val: Some(id), maybe: true })),
                                     Err(e) => errors.lock().unwrap().push(format!("put returned {e:?} in a fault-free run")),
@@ -147,7 +154,7 @@ fn execute(case: &ConcCase, check_lin: bool) -> Result<(Vec<Rec>, ConcStats), St
                                 let k = *k % nk as u8;
                                 let id = idgen();
                                 let v = make_value(id, Val { len: 40_000 + *n as u32 * 1000, compressible: false });
-                                match db.put(WriteOptions::default(), KEYS[k as usize].to_vec(), v) {
+                                match db.put(wo, KEYS[k as usize].to_vec(), v) {
                                     Ok(()) => effects.push((k, KKind::Write { val: Some(id), maybe: false })),
                                     Err(_) if faulty => effects.push((k, KKind::Write { val: Some(id), maybe: true })),
                                     Err(e) => errors.lock().unwrap().push(format!("put returned {e:?} in a fault-free run")),
@@ -155,7 +162,7 @@ fn execute(case: &ConcCase, check_lin: bool) -> Result<(Vec<Rec>, ConcStats), St
                             }
                             COp::Delete(k) => {
                                 let k = *k % nk as u8;
-                                match db.delete(WriteOptions::default(), KEYS[k as usize].to_vec()) {
+                                match db.delete(wo, KEYS[k as usize].to_vec()) {
                                     Ok(()) => effects.push((k, KKind::Write { val: None, maybe: false })),
                                     Err(_) if faulty => effects.push((k, KKind::Write { val: None, maybe: true })),
                                     Err(e) => errors.lock().unwrap().push(format!("delete returned {e:?} in a fault-free run")),
@@ -178,7 +185,7 @@ fn execute(case: &ConcCase, check_lin: bool) -> Result<(Vec<Rec>, ConcStats), St
                                         }
                                     }
                                 }
-                                match db.apply(WriteOptions::default(), b) {
+                                match db.apply(wo, b) {
                                     Ok(()) => {
                                         for (k, v) in eff {
                                             effects.push((k, KKind::Write { val: v, maybe: false }));
@@ -389,9 +396,10 @@ pub fn c05_strategy(forced: bool) -> BoxedStrategy<ConcCase> {
                 2u8..=6,
                 prop::collection::vec(prop::collection::vec(cop(160), 3..=max_ops.min(14)), nt),
                 if forced { prop::collection::vec(directive(nt), 1..=4).boxed() } else { Just(vec![]).boxed() },
+                prop_oneof![2 => Just(0u32), 1 => any::<u32>(), 1 => (any::<u32>(), any::<u32>()).prop_map(|(a, b)| a & b)],
             )
         })
-        .prop_map(|(cfg, nkeys, programs, directives)| ConcCase { cfg, nkeys, programs, directives, wal_fault: None, preload: 0 })
+        .prop_map(|(cfg, nkeys, programs, directives, sync_mask)| ConcCase { cfg, nkeys, programs, directives, wal_fault: None, preload: 0, sync_mask })
         .boxed()
 }
 
@@ -429,7 +437,7 @@ pub fn c09_strategy() -> BoxedStrategy<ConcCase> {
                 prop::collection::vec(prop::collection::vec(op.clone(), 20..70), nt),
             )
         })
-        .prop_map(|(cfg, programs)| ConcCase { cfg, nkeys: 6, programs, directives: vec![], wal_fault: None, preload: 0 })
+        .prop_map(|(cfg, programs)| ConcCase { cfg, nkeys: 6, programs, directives: vec![], wal_fault: None, preload: 0, sync_mask: 0 })
         .boxed()
 }
 
@@ -486,6 +494,7 @@ pub fn c09_forced_strategy() -> BoxedStrategy<ConcCase> {
                 ],
                 wal_fault: None,
                 preload: 0,
+                sync_mask: 0,
             }
         });
     // Gap layout: key order of KEYS is [2, 4, 0, 1, 3, 5]; the lowest `lo` and the highest `hi` keys
@@ -530,6 +539,7 @@ pub fn c09_forced_strategy() -> BoxedStrategy<ConcCase> {
                 ],
                 wal_fault: None,
                 preload: 0,
+                sync_mask: 0,
             }
         });
     // Close race: the background thread is held after it drained its task buffer until the clients
@@ -564,6 +574,7 @@ pub fn c09_forced_strategy() -> BoxedStrategy<ConcCase> {
         directives: vec![Directive { role: -1, point: "worker.tasks_drained".into(), nth, max_hold_ms: 300, linger_ms, every: 0 }],
         wal_fault: None,
         preload: 0,
+        sync_mask: 0,
     });
     prop_oneof![6 => random, 1 => structured, 1 => gap, 1 => closing, 1 => closing2, 2 => pile].boxed()
 }
